@@ -71,9 +71,16 @@ class FlowGraph(DiGraph):
 
         # Add between nodes and follow up nodes:
         node = None
+        previous = None
         for ins in instrs:
             if self.has_node(ins):
-                node = self.get_node(ins)
+                leader_node = self.get_node(ins)
+                if node is not None and previous is not None and not previous.jumps:
+                    # The previous instruction does not jump, so control
+                    # falls through from its node into this leader:
+                    self.add_edge(node, leader_node)
+                node = leader_node
+            previous = ins
             if ins.jumps:
                 for j in ins.jumps:
                     to_node = self.get_node(j)
